@@ -112,7 +112,25 @@ func c04Families() []c04Fam {
 		{Kind: "add", Pt: "p", R1: [][]string{{"c", "d", "data1", "read"}}},
 		{Kind: "add", Pt: "p", R1: [][]string{{"b", "d", "data1", "read"}}},
 	}
-	return []c04Fam{rb, dm, cl, cd}
+	// a link that is REDUNDANT when it is added (the role is already reached through a detour) and
+	// becomes the only path later: it has to be stored like any other
+	var dt c04Fam
+	dt.name, dt.conf = "rbac", c11Conf04
+	for _, s := range []string{"alice", "bob", "carol"} {
+		dt.reqs = append(dt.reqs, []string{s, "data1", "read"})
+	}
+	dt.al = []mOp{
+		{Kind: "add", Pt: "g", R1: [][]string{{"bob", "admin"}}},
+		{Kind: "remove", Pt: "g", R1: [][]string{{"bob", "admin"}}},
+		{Kind: "remove", Pt: "g", R1: [][]string{{"bob", "alice"}}},
+		{Kind: "add", Pt: "g", R1: [][]string{{"bob", "alice"}}},
+		{Kind: "remove", Pt: "g", R1: [][]string{{"alice", "admin"}}},
+		{Kind: "add", Pt: "g", R1: [][]string{{"alice", "admin"}}},
+		{Kind: "addmany", Pt: "g", R1: [][]string{{"carol", "bob"}, {"carol", "admin"}}},
+		{Kind: "removemany", Pt: "g", R1: [][]string{{"carol", "bob"}, {"bob", "alice"}}},
+		{Kind: "load"},
+	}
+	return []c04Fam{rb, dm, cl, cd, dt}
 }
 
 var c11Conf04 = machConf{Name: "rbac1", Text: `[request_definition]
@@ -226,6 +244,8 @@ func init() {
 				content = []prule{{"p", []string{"c", "data1", "read"}}, {"g", []string{"a", "bc"}}}
 			case 3:
 				content = []prule{{"p", []string{"bc", "d", "data1", "read"}}, {"g", []string{"a", "b", "cd"}}}
+			case 4:
+				content = []prule{{"p", []string{"admin", "data1", "read"}}, {"g", []string{"bob", "alice"}}, {"g", []string{"alice", "admin"}}}
 			}
 			n := len(f.al)
 			var rec func(seq []mOp, inGuard bool)
